@@ -348,4 +348,23 @@ pub fn register(l: &mut Vec<Obl>) {
     {
         Lab::<wp::D65, N>::from_color_unclamped(rgb).l
     }
+    // XYZ <-> Oklab edge on 12 hue directions (configurations), lightness and chroma symbolic: the cubic direction followed by the
+    // cube-root direction returns the colour. Attempted and NOT decided by z3 within 150 s even with two variables (cube roots of cubics with inexact inverse matrices): Open, nothing is claimed; the cubic direction alone is decided under C02 (c02_oklab_to_xyz_h*)
+    for k in 0..12 {
+        let h = (k as f64) * 30.0 + 7.0;
+        let (ch, sh) = (h.to_radians().cos(), h.to_radians().sin());
+        obl!(l; format!("c01_oklab_xyz_oklab_h{}", h as i32), "C01", Tier::Open,
+            format!("Oklab -> XYZ (D65) -> Oklab returns the colour (1e-5) for every lightness in [0.05,1] and chroma in [0, 0.3] at hue {} degrees", h),
+            ["<Xyz<D65,T> as FromColorUnclamped<Oklab<T>>>::from_color_unclamped", "<Oklab<T> as FromColorUnclamped<Xyz<D65,T>>>::from_color_unclamped"],
+            [var("l", 0.05, 1.0), var("c", 0.0, 0.3)];
+            |v| {
+                let mut r = Res::<B>::new();
+                let (a, b) = (v[1] * T::k(ch), v[1] * T::k(sh));
+                let back: Oklab<T> = Oklab::from_color_unclamped(Xyz::<wp::D65, T>::from_color_unclamped(Oklab::<T>::new(v[0], a, b)));
+                r.goal("l", back.l.close(v[0], 1e-5));
+                r.goal("a", back.a.close(a, 1e-5));
+                r.goal("b", back.b.close(b, 1e-5));
+                r
+            });
+    }
 }
